@@ -111,3 +111,26 @@ pub fn string_contains_char(a: &String, c: char) -> (r: bool)
 pub fn vec_from_arr<T, const N: usize>(a: [T; N]) -> (r: Vec<T>)
     ensures r@ == a@
 { Vec::from(a) }
+
+// the order of String (Ord for String is a total order; only that is assumed)
+pub uninterp spec fn string_le(a: Seq<char>, b: Seq<char>) -> bool;
+pub broadcast axiom fn axiom_string_le_total(a: Seq<char>, b: Seq<char>)
+    ensures #[trigger] string_le(a, b) || string_le(b, a);
+pub broadcast axiom fn axiom_string_le_antisym(a: Seq<char>, b: Seq<char>)
+    requires #[trigger] string_le(a, b), #[trigger] string_le(b, a)
+    ensures a == b;
+pub broadcast axiom fn axiom_string_le_trans(a: Seq<char>, b: Seq<char>, c: Seq<char>)
+    requires #[trigger] string_le(a, b), #[trigger] string_le(b, c)
+    ensures string_le(a, c);
+
+// class S: HashSet::iter().filter(p).min(): the smallest element accepted by p, None iff there is none
+#[verifier::external_body]
+pub fn hs_iter_filter_min<'a, F: Fn(&&'a String) -> bool>(s: &'a HashSet<String>, f: F) -> (r: Option<&'a String>)
+    requires forall |x: &&'a String| #[trigger] f.requires((x,))
+    ensures
+        match r {
+            Some(x) => s@.contains(*x) && f.ensures((&x,), true)
+                && forall |y: &'a String| #[trigger] s@.contains(*y) ==> string_le(x@, y@) || f.ensures((&y,), false),
+            None => forall |y: &'a String| s@.contains(*y) ==> f.ensures((&y,), false),
+        }
+{ s.iter().filter(|x| f(x)).min() }
